@@ -24,7 +24,16 @@ pub struct Ref {
 
 #[derive(Clone, Debug, Serialize, Deserialize, Hash, PartialEq, Eq)]
 pub enum Item {
-    Open { name: Option<u8>, affects: Vec<Ref>, form: u8, multiline: bool, indent: u8 },
+    Open {
+        name: Option<u8>,
+        affects: Vec<Ref>,
+        form: u8,
+        multiline: bool,
+        indent: u8,
+        /// spread the start tag itself over several lines (one attribute per line) where the comment form allows it
+        #[serde(default)]
+        tag_lines: bool,
+    },
     Close { form: u8, indent: u8 },
     Code(u16),
 }
@@ -74,8 +83,8 @@ pub fn events_of(f: &DFile, paths: &[String]) -> Vec<Ev> {
     f.items
         .iter()
         .map(|it| match it {
-            Item::Open { name, affects, form, multiline, indent } => {
-                let mut attrs = vec![];
+            Item::Open { name, affects, form, multiline, indent, tag_lines } => {
+                let mut attrs: Vec<Attr> = vec![];
                 if let Some(n) = name {
                     attrs.push(Attr::simple("name", NAMES[*n as usize % NAMES.len()]));
                 }
@@ -91,6 +100,11 @@ pub fn events_of(f: &DFile, paths: &[String]) -> Vec<Ev> {
                         parts.push(format!("{sep}{}:{name}", file.unwrap_or_default()));
                     }
                     attrs.push(Attr::simple("affects", &parts.join(",")));
+                }
+                if *tag_lines {
+                    for a in &mut attrs {
+                        a.ws_before = "\n".to_string();
+                    }
                 }
                 Ev::Open { tag: StartTag { attrs, ws_end: String::new() }, place: Place { form: *form, nl_before: *multiline, nl_after: *multiline, indent: *indent, ..Default::default() } }
             }
@@ -529,8 +543,8 @@ fn repair(c: &DriftCase, w: &World, probe: &Probe) -> Verdict {
 
 pub fn file_strategy() -> BoxedStrategy<DFile> {
     let r = (prop_oneof![3 => Just(None), 2 => (0u8..4).prop_map(Some), 1 => Just(Some(255u8))], prop_oneof![5 => 0u8..5, 1 => Just(255u8)]).prop_map(|(file, name)| Ref { file, name });
-    let open = (proptest::option::weighted(0.8, 0u8..5), prop_oneof![2 => Just(vec![]), 2 => proptest::collection::vec(r, 1..4)], any::<u8>(), proptest::bool::weighted(0.15), prop_oneof![3 => Just(0u8), 1 => 0u8..5])
-        .prop_map(|(name, affects, form, multiline, indent)| Item::Open { name, affects, form, multiline, indent });
+    let open = (proptest::option::weighted(0.8, 0u8..5), prop_oneof![2 => Just(vec![]), 2 => proptest::collection::vec(r, 1..4)], any::<u8>(), proptest::bool::weighted(0.15), prop_oneof![3 => Just(0u8), 1 => 0u8..5], proptest::bool::weighted(0.12))
+        .prop_map(|(name, affects, form, multiline, indent, tag_lines)| Item::Open { name, affects, form, multiline, indent, tag_lines });
     let close = (any::<u8>(), prop_oneof![3 => Just(0u8), 1 => 0u8..5]).prop_map(|(form, indent)| Item::Close { form, indent });
     let item = prop_oneof![2 => open, 2 => close, 5 => any::<u16>().prop_map(Item::Code)];
     (0..SUFFIXES.len(), 0u8..4, proptest::collection::vec(item, 3..30), gitcase::edits_strategy(9), prop_oneof![6 => Just(0u8), 1 => Just(1u8), 1 => Just(2u8), 1 => Just(3u8)], proptest::bool::weighted(0.15))
@@ -545,7 +559,7 @@ pub fn case_strategy() -> BoxedStrategy<DriftCase> {
 }
 
 pub fn run(run: &mut Run) {
-    run.rule = "random: 1..4 files of random suffixes (root or sub-directories, one with a space), each a balanced list of own-line tag comments (any comment form of the language, 15% multi-line comments, indentation), blocks named from a pool of 5 (duplicates, unnamed) with affects lists of 1..3 references (same file, other file, missing file, missing name, cycles) and code lines; an edit script of 0..8 operations on new-side lines (add k lines, delete k lines at a gap, replace a line incl. tag lines) from which the old state is derived; file fates modified / renamed / new / untouched / an extra deleted file; in 25% further entries in the same diff (a binary file, an added empty file, a changed file of unknown suffix holding unbalanced tags, a file emptied); hostile removed lines (`-- x`, `--- a/f`, `@@ -1 +1 @@`, …) in 10%; missing trailing newline in 15%; real git in a generated mode (-U0..10, unstaged/--cached/HEAD/commit-to-commit, 4 diff algorithms, -M). Oracle part 1: flag per block from an independent reader of git's diff (must / must-not / unspecified zones), part 2: affects diagnostics = reference model over the listed flags, exit status; part 3: after touching every linked block the run passes. Non-trivial = a file with >= 2 hunks, a must-modified block with affects and a must-not block.".into();
+    run.rule = "random: 1..4 files of random suffixes (root or sub-directories, one with a space), each a balanced list of own-line tag comments (any comment form of the language, 15% multi-line comments, 12% start tags spread over several lines, indentation), blocks named from a pool of 5 (duplicates, unnamed) with affects lists of 1..3 references (same file, other file, missing file, missing name, cycles) and code lines; an edit script of 0..8 operations on new-side lines (add k lines, delete k lines at a gap, replace a line incl. tag lines) from which the old state is derived; file fates modified / renamed / new / untouched / an extra deleted file; in 25% further entries in the same diff (a binary file, an added empty file, a changed file of unknown suffix holding unbalanced tags, a file emptied); hostile removed lines (`-- x`, `--- a/f`, `@@ -1 +1 @@`, …) in 10%; missing trailing newline in 15%; real git in a generated mode (-U0..10, unstaged/--cached/HEAD/commit-to-commit, 4 diff algorithms, -M). Oracle part 1: flag per block from an independent reader of git's diff (must / must-not / unspecified zones), part 2: affects diagnostics = reference model over the listed flags, exit status; part 3: after touching every linked block the run passes. Non-trivial = a file with >= 2 hunks, a must-modified block with affects and a must-not block.".into();
     run.assumptions = vec![
         "file names avoid characters git C-quotes".into(),
         "mixed -/+ groups count through their added lines only (removed lines of a mixed group are not asserted: see K2 in DESIGN.md)".into(),
